@@ -427,10 +427,10 @@ def _cmp_file(ctx, pre, parsed, snap, an, exact: bool, times: bool = True):
             fo = sorted(fc[kind], key=lambda o: (o["column"], F(o["beat"])))
             mo = sorted(ac[kind], key=lambda o: (o["column"], o["offset"]))
             if len(fo) != len(mo):
-                ctx.fail(f"{pre}count:{kind}", f"chart {ci}: file has {len(fo)}, memory {len(mo)}; file {[(o['column'], o['beat']) for o in fo][:8]} memory {[(o['column'], str(o['beat'])) for o in mo][:8]}")
+                ctx.fail(f"{pre}count", f"{kind} chart {ci}: file has {len(fo)}, memory {len(mo)}; file {[(o['column'], o['beat']) for o in fo][:8]} memory {[(o['column'], str(o['beat'])) for o in mo][:8]}")
                 continue
             if [o["column"] for o in fo] != [o["column"] for o in mo]:
-                ctx.fail(f"{pre}column:{kind}", f"chart {ci}: file columns {[o['column'] for o in fo]}, memory {[o['column'] for o in mo]}")
+                ctx.fail(f"{pre}column", f"{kind} chart {ci}: file columns {[o['column'] for o in fo]}, memory {[o['column'] for o in mo]}")
                 continue
             if not times:
                 continue
@@ -438,17 +438,17 @@ def _cmp_file(ctx, pre, parsed, snap, an, exact: bool, times: bool = True):
                 where = f"chart {ci} column {m['column']} beat {m['beat']} ({m['offset']!r} ms)"
                 if exact:
                     if not abs(f["offset"] - m["offset"]) <= _tol(m["offset"]):
-                        ctx.fail(f"{pre}time:{kind}", f"{where}: file says {f['offset']!r} ms (beat {f['beat']})")
+                        ctx.fail(f"{pre}time", f"{kind} {where}: file says {f['offset']!r} ms (beat {f['beat']})")
                         break
                     if long and not abs(f["length"] - m["length"]) <= 2 * _tol(m["offset"] + m["length"]):
-                        ctx.fail(f"{pre}length:{kind}", f"{where}: file length {f['length']!r} ms ({f['length_beats']} beats), memory {m['length']!r} ms")
+                        ctx.fail(f"{pre}length", f"{kind} {where}: file length {f['length']!r} ms ({f['length_beats']} beats), memory {m['length']!r} ms")
                         break
                 else:
                     if abs(float(F(f["beat"])) - m["fbeat"]) > GRID:
-                        ctx.fail(f"{pre}grid:{kind}", f"{where}: file beat {float(F(f['beat']))!r}, memory beat {m['fbeat']!r}")
+                        ctx.fail(f"{pre}grid", f"{kind} {where}: file beat {float(F(f['beat']))!r}, memory beat {m['fbeat']!r}")
                         break
                     if long and abs(float(F(f["beat"]) + F(f["length_beats"])) - m["ftail"]) > GRID:
-                        ctx.fail(f"{pre}grid-tail:{kind}", f"{where}: file tail beat {float(F(f['beat']) + F(f['length_beats']))!r}, memory tail beat {m['ftail']!r}")
+                        ctx.fail(f"{pre}grid-tail", f"{kind} {where}: file tail beat {float(F(f['beat']) + F(f['length_beats']))!r}, memory tail beat {m['ftail']!r}")
                         break
 
 
@@ -494,26 +494,26 @@ def _cmp_mem(ctx, pre, got: dict, exp: dict, an: dict, mode: str):
             go = sorted(g[kind], key=lambda o: (o["column"], o["offset"]))
             eo = sorted(e[kind], key=lambda o: (o["column"], o["offset"]))
             if len(go) != len(eo):
-                ctx.fail(f"{pre}count:{kind}", f"chart {ci}: {len(go)} vs first generation {len(eo)}")
+                ctx.fail(f"{pre}count", f"{kind} chart {ci}: {len(go)} vs first generation {len(eo)}")
                 continue
             if [o["column"] for o in go] != [o["column"] for o in eo]:
-                ctx.fail(f"{pre}column:{kind}", f"chart {ci}: columns {[o['column'] for o in go]} vs {[o['column'] for o in eo]}")
+                ctx.fail(f"{pre}column", f"{kind} chart {ci}: columns {[o['column'] for o in go]} vs {[o['column'] for o in eo]}")
                 continue
             for a, b in zip(go, eo):
                 where = f"chart {ci} column {b['column']} at {b['offset']!r} ms"
                 if mode == "exact":
                     if not abs(a["offset"] - b["offset"]) <= _tol(b["offset"]):
-                        ctx.fail(f"{pre}time:{kind}", f"{where}: second generation {a['offset']!r} ms")
+                        ctx.fail(f"{pre}time", f"{kind} {where}: second generation {a['offset']!r} ms")
                         break
                     if long and not abs(a["length"] - b["length"]) <= 2 * _tol(b["offset"] + b["length"]):
-                        ctx.fail(f"{pre}length:{kind}", f"{where}: length {a['length']!r} vs {b['length']!r} ms")
+                        ctx.fail(f"{pre}length", f"{kind} {where}: length {a['length']!r} vs {b['length']!r} ms")
                         break
                 else:
                     if abs(tl.beat_of(a["offset"]) - tl.beat_of(b["offset"])) > GRID:
-                        ctx.fail(f"{pre}grid:{kind}", f"{where} (beat {tl.beat_of(b['offset'])!r}): second generation {a['offset']!r} ms (beat {tl.beat_of(a['offset'])!r})")
+                        ctx.fail(f"{pre}grid", f"{kind} {where} (beat {tl.beat_of(b['offset'])!r}): second generation {a['offset']!r} ms (beat {tl.beat_of(a['offset'])!r})")
                         break
                     if long and abs(tl.beat_of(a["offset"] + a["length"]) - tl.beat_of(b["offset"] + b["length"])) > GRID:
-                        ctx.fail(f"{pre}grid-tail:{kind}", f"{where}: tail {a['offset'] + a['length']!r} vs {b['offset'] + b['length']!r} ms")
+                        ctx.fail(f"{pre}grid-tail", f"{kind} {where}: tail {a['offset'] + a['length']!r} vs {b['offset'] + b['length']!r} ms")
                         break
 
 
@@ -526,11 +526,11 @@ def _cmp_files(ctx, pre, p2: dict, p1: dict):
         for kind in ref.KINDS:
             o2, o1 = ref.objects(c2, kind), ref.objects(c1, kind)
             if len(o2) != len(o1) or [o[0] for o in o2] != [o[0] for o in o1]:
-                ctx.fail(f"{pre}objects:{kind}", f"chart {ci}: second file {o2[:6]} first file {o1[:6]}")
+                ctx.fail(f"{pre}objects", f"{kind} chart {ci}: second file {o2[:6]} first file {o1[:6]}")
                 continue
             for a, b in zip(o2, o1):
                 if any(abs(x - y) > 2 * _tol(b[1] + (b[2] if len(b) > 2 else 0.0)) for x, y in zip(a[1:], b[1:])):
-                    ctx.fail(f"{pre}time:{kind}", f"chart {ci}: second file {a}, first file {b}")
+                    ctx.fail(f"{pre}time", f"{kind} chart {ci}: second file {a}, first file {b}")
                     break
 
 
@@ -740,9 +740,9 @@ def _pad_width(case, failure):
 KNOWN_PREDICATES = {"pad_width": _pad_width}
 
 SUBS = [
-    Sub("built", check_built, strategy=built_st, examples={"quick": 150, "thorough": 1400}, shards={"quick": 6, "thorough": 16}),
-    Sub("read", check_read, strategy=read_st, examples={"quick": 110, "thorough": 900}, shards={"quick": 4, "thorough": 16}),
-    Sub("convert", check_convert, strategy=convert_st, examples={"quick": 150, "thorough": 1200}, shards={"quick": 3, "thorough": 16}),
+    Sub("built", check_built, strategy=built_st, examples={"quick": 200, "thorough": 900}, shards={"quick": 6, "thorough": 16}),
+    Sub("read", check_read, strategy=read_st, examples={"quick": 180, "thorough": 500}, shards={"quick": 4, "thorough": 16}),
+    Sub("convert", check_convert, strategy=convert_st, examples={"quick": 300, "thorough": 800}, shards={"quick": 3, "thorough": 16}),
 ]
 
 MANIFEST = dict(
